@@ -25,9 +25,14 @@ def main():
         for seed in seeds:
             p = genlib.generate(seed)
             e, _ = genlib.erase(p, seed)
+            tr = None          # one translator object for a program and its mutated variant, as the driver uses it (--keep-all)
             for prog in (p, e):
                 pkg = WORDS[len(texts) % len(WORDS)] + str(len(texts))
-                texts.append((pkg, genlib.translate(prog, package="src." + pkg)))
+                if tr is None:
+                    tr = genlib.translator("java", package="src." + pkg)
+                else:
+                    tr.package = "src." + pkg
+                texts.append((pkg, genlib.translate(prog, tr=tr)))
         return texts
     texts = genlib.in_big_stack(work)
 
